@@ -26,7 +26,7 @@ GP = (-16, 16, 1)
 # ---- systematic unary node kinds: "N:<shape>:<position form>:<size form>[:held]" (one parent) and containers "S:<shape>:<n>" / "I:<shape>:<n>"
 NSHAPES = ["rect", "circle", "ellipse", "box", "point"]
 NPOS = ["dirh", "dirH", "dirv", "dirV", "loc", "cloc", "xyloc", "edge", "scalar", "scalar2", "ccs", "expr"]
-NSIZE = {"rect": ["wh", "long", "rel", "dw"], "box": ["wh", "long"], "circle": ["r", "wh1"], "ellipse": ["rxy", "rxry", "wh"], "point": ["none"]}
+NSIZE = {"rect": ["wh", "long", "rel", "dw", "reldw", "reldwp"], "box": ["wh", "long"], "circle": ["r", "wh1"], "ellipse": ["rxy", "rxry", "wh"], "point": ["none"]}
 
 
 def nkinds():
@@ -48,7 +48,7 @@ def nnode(kind, id_, p, a):
     pos = {"dirh": f'xy="{p}|h {a[0]}"', "dirH": f'xy="{p}|H {a[0]}"', "dirv": f'xy="{p}|v {a[0]}"', "dirV": f'xy="{p}|V {a[0]}"', "loc": f'xy="{p}@br {a[0]} {a[1]}"',
            "cloc": f'cxy="{p}@c {a[0]}"', "xyloc": f'xy="{p}@r {a[0]}" xy-loc="l"', "edge": f'xy="{p}@b:25% {a[0]}"', "scalar": f'x="{p}~x2" y="{p}~cy {a[0]}"',
            "scalar2": f'x2="{p}~x1" y2="{p}@b {a[0]} {a[1]}"', "ccs": f'cx="{p}~cx {a[0]}" cy="{p}@t"', "expr": f'x="{{{{{p}~x2 + {a[0]}}}}}" y="{{{{{p}~y}}}}"'}[pf]
-    size = {"wh": f'wh="{a[2]} {a[3]}"', "long": f'width="{a[2]}" height="{a[3]}"', "rel": f'wh="{p} 50%"', "dw": f'width="{a[2]}" height="{a[3]}" dw="{a[4]}" dh="1"',
+    size = {"reldw": f'wh="{p}" dwh="{a[4]} 1"', "reldwp": f'width="{p}" height="{a[3]}" dw="50%"', "wh": f'wh="{a[2]} {a[3]}"', "long": f'width="{a[2]}" height="{a[3]}"', "rel": f'wh="{p} 50%"', "dw": f'width="{a[2]}" height="{a[3]}" dw="{a[4]}" dh="1"',
             "r": f'r="{a[2]}"', "wh1": f'wh="{a[2]}"', "rxy": f'rxy="{a[2]} {a[3]}"', "rxry": f'rx="{a[2]}" ry="{a[3]}"', "none": ""}[sf]
     held = ' data-h="{{%s~h}}"' % p if kind.endswith(":held") else ""
     return f'<{shp} id="{id_}" {pos} {size}{held}/>', [(2, *GP), (-3, *GP), (6, *SZ), (8, *SZ), (3, 0, 16, 0)]
@@ -64,6 +64,10 @@ def node(kind, id_, parents, k0, sp):
         what, shp, n = kind.split(":")
         attr = "surround" if what == "S" else "inside"
         return f'<{shp} id="{id_}" {attr}="{" ".join(p)}" margin="{a[0]}"/>', [(2, 0, 8, 1)]
+    if kind == "RU":     # a reuse placed relative to the parent, carrying an attribute local s
+        return f'<reuse id="{id_}" href="#rut" xy="{p[0]}|h {a[0]}" s="1"/>', [(2, *GP)]
+    if kind == "VS":     # an element reading the document-level $s (its parent in the DAG shape is not referred to)
+        return f'<rect id="{id_}" xy="{a[0]} {a[1]}" wh="$s 3"/>', [(70, *POS), (-60, *POS)]
     if kind == "PD":     # path whose data refers to the parent
         return f'<path id="{id_}" d="M {p[0]}@tl L {p[0]}@r l {a[0]} {a[1]}"/>', [(2, *GP), (-3, *GP)]
     if kind == "PT2":    # phantom point on the parent, nothing rendered
@@ -190,7 +194,7 @@ def templates(tier, seed):
             tds.append(dict(fam="order", shape="chain3", kinds=["R", "H", "S1"], sp=si, perm=list(perm)))
     for kinds, shape in ((["R", "G", "S2x"], "g-surround"), (["R", "Hd", "E"], "chain3"), (["R", "G", "S1"], "chain3"), (["C", "Hd", "ER"], "chain3"), (["R", "G", "E"], "chain3"), (["R", "Hd", "EZ"], "chain3"), (["C", "L", "EZ"], "chain3"),
                          (["R", "T", "H"], "chain3"), (["R", "Tc", "L"], "chain3"), (["R", "Tx", "H"], "chain3"), (["R", "PA", "H"], "chain3"), (["R", "PA", "S1"], "chain3"),
-                         (["C", "LC", "H"], "chain3"), (["R", "CP", "GC"], "chain3"), (["R", "CP", "GC", "S1"], "chain4"), (["R", "CP", "GC", "H"], "chain4"), (["R", "CG", "H"], "chain3"), (["R", "CG", "S1"], "chain3"), (["R", "T", "S1"], "chain3"), (["R", "PL", "S1"], "chain3")):
+                         (["C", "LC", "H"], "chain3"), (["R", "RU", "VS"], "chain3"), (["R", "RU", "VS", "H"], "chain4"), (["R", "CP", "GC"], "chain3"), (["R", "CP", "GC", "S1"], "chain4"), (["R", "CP", "GC", "H"], "chain4"), (["R", "CG", "H"], "chain3"), (["R", "CG", "S1"], "chain3"), (["R", "T", "S1"], "chain3"), (["R", "PL", "S1"], "chain3")):
         if shape == "g-surround":
             continue
         for si in (range(4) if len(kinds) == 3 else (0, 2)):
@@ -226,7 +230,7 @@ def templates(tier, seed):
     for bad in ("unknown-id", "cycle2", "cycle3", "self", "no-bbox", "unknown-surround", "unknown-connector", "cycle-size"):
         tds.append(dict(fam="unsat", case=bad))
     if tier == "quick":
-        keep = [t for t in tds if t["fam"] == "unsat" or t.get("sysn") or t.get("kinds") in (["R", "H", "S1"], ["R", "T", "H"], ["R", "Tc", "L"], ["R", "Tx", "H"], ["R", "PA", "H"], ["R", "PA", "S1"], ["C", "LC", "H"], ["R", "CP", "GC"], ["R", "CP", "GC", "S1"], ["R", "CP", "GC", "H"], ["R", "CG", "H"], ["R", "CG", "S1"], ["R", "T", "S1"], ["R", "PL", "S1"], ["R", "Hd", "EZ"], ["C", "L", "EZ"], ["R", "Hd", "E"], ["R", "G", "S1"], ["C", "Hd", "ER"], ["R", "G", "E"], ["R", "R", "G", "S2"])]
+        keep = [t for t in tds if t["fam"] == "unsat" or t.get("sysn") or t.get("kinds") in (["R", "H", "S1"], ["R", "T", "H"], ["R", "Tc", "L"], ["R", "Tx", "H"], ["R", "PA", "H"], ["R", "PA", "S1"], ["C", "LC", "H"], ["R", "RU", "VS"], ["R", "RU", "VS", "H"], ["R", "CP", "GC"], ["R", "CP", "GC", "S1"], ["R", "CP", "GC", "H"], ["R", "CG", "H"], ["R", "CG", "S1"], ["R", "T", "S1"], ["R", "PL", "S1"], ["R", "Hd", "EZ"], ["C", "L", "EZ"], ["R", "Hd", "E"], ["R", "G", "S1"], ["C", "Hd", "ER"], ["R", "G", "E"], ["R", "R", "G", "S2"])]
         rest = [t for t in tds if t not in keep and not t.get("sysn")]
         tds = keep + sample_quota(rest, lambda t: (t["shape"],), {"pair": 20, "chain3": 50, "fan3": 40, "join3": 40, "chain4": 30, "diamond4": 30, "join-then4": 30, "mixed4": 30, "g-and-sibling": 0}, seed)
     return tds
@@ -291,6 +295,8 @@ def build(td, wrong=False):
     # element defaults (appended attributes such as transform included) are applied once per element, however often it is retried
     dflt = ('<defaults><rect transform="translate(3 0)" opacity="0.5"/><circle transform="translate(0 2)"/><ellipse class="dflt" transform="translate(1 1)"/></defaults>'
             if td.get("dflt") else "")
+    if "RU" in kinds:
+        dflt += '<specs><rect id="rut" wh="$s 2"/></specs><var s="4"/>'
     doc_sorted = "<svg>" + dflt + "".join(marks) + "</svg>"
     doc_perm = "<svg>" + dflt + "".join(marks[i] for i in perm) + "</svg>"
     has_conn = any(k in ("K", "KL", "KP") for k in kinds)
